@@ -43,11 +43,15 @@ enum Ev {
     ListenConfirms,
     DropConfirmReceiver,
     Return(usize),       // body in this many frames
+    ReturnBegin,         // Basic.Return + header announcing two body frames + the first body frame ...
+    ReturnEnd,           // ... and the last body frame (other events may come in between; the listener at completion gets it)
     Ack(bool),
     Nack(bool),
 }
 
-const ALPHABET: [Ev; 12] = [
+const ALPHABET: [Ev; 14] = [
+    Ev::ReturnBegin,
+    Ev::ReturnEnd,
     Ev::ListenReturns,
     Ev::DropReturnReceiver,
     Ev::ListenConfirms,
@@ -72,6 +76,7 @@ fn run_history(h: &[Ev]) {
     let mut old_ret: Vec<CrossbeamReceiver<Return>> = Vec::new();
     let mut old_conf: Vec<CrossbeamReceiver<Confirm>> = Vec::new();
     let mut seq = 0u64;
+    let mut pending: Option<(String, Vec<u8>)> = None; // a return whose last body frame has not arrived yet
     for (i, ev) in h.iter().enumerate() {
         seq += 1;
         let at = format!("history {:?} step {}", h, i);
@@ -104,7 +109,41 @@ fn run_history(h: &[Ev]) {
                 check_confirms(&conf_rx, &mut conf_want, &at);
                 conf_rx = None;
             }
+            Ev::ReturnBegin => {
+                if pending.is_some() {
+                    return; // a new method while content is outstanding is a protocol violation, not part of this alphabet
+                }
+                let key = format!("k{}", seq);
+                let body: Vec<u8> = vec![seq as u8; 7];
+                let frames_in = vec![
+                    AMQPFrame::Method(CH, AMQPClass::Basic(AmqpBasic::Return(AmqpReturn { reply_code: 312, reply_text: "NO_ROUTE".to_string(), exchange: "x".to_string(), routing_key: key.clone() }))),
+                    AMQPFrame::Header(CH, 60, Box::new(AMQPContentHeader { class_id: 60, weight: 0, body_size: 7, properties: AMQPProperties::default() })),
+                    AMQPFrame::Body(CH, body[..3].to_vec()),
+                ];
+                for f in frames_in {
+                    if let Err(e) = hx.feed(f) {
+                        panic!("{}: the beginning of a returned message disturbed the connection: {}", at, e);
+                    }
+                }
+                pending = Some((key, body));
+            }
+            Ev::ReturnEnd => {
+                let (key, body) = match pending.take() {
+                    Some(p) => p,
+                    None => return, // nothing outstanding: a stray body frame is a protocol violation
+                };
+                if let Err(e) = hx.feed(AMQPFrame::Body(CH, body[3..].to_vec())) {
+                    panic!("{}: the end of a returned message disturbed the connection: {}", at, e);
+                }
+                // the listener registered when the message is complete receives it
+                if ret_rx.is_some() {
+                    ret_want.push((key, body));
+                }
+            }
             Ev::Return(frames) => {
+                if pending.is_some() {
+                    return;
+                }
                 let key = format!("k{}", seq);
                 let chunks: Vec<Vec<u8>> = (0..frames).map(|c| vec![(seq as u8).wrapping_add(c as u8); 3 + c]).collect();
                 let body: Vec<u8> = chunks.iter().flatten().cloned().collect();
